@@ -415,6 +415,10 @@ def classify_refusal(leaf, P):
         return 'type'
     if leaf.op in ('in', 'notin') and isinstance(leaf.args[1], T.Ref):
         return 'type'  # dispatch-table membership (type / wire-type name)
+    if leaf.op in ('in', 'notin') and leaf.args[0] is P and \
+            isinstance(leaf.args[1], tuple) and leaf.args[1] and \
+            all(isinstance(x, int) for x in leaf.args[1]):
+        return 'range'  # membership in a constant range(...) / int tuple
     if leaf.op in ('lt', 'le', 'gt', 'ge', 'eq', 'ne'):
         a, b = leaf.args
 
